@@ -143,25 +143,37 @@ def clamp(repo, rep):
         rep.violation("R-CLAMP", site, "newton-shape", "Newton step x - y/y' not found in the iteration")
         return
     k, step, newv = newton
-    # every phi that selects `step` itself must be guarded by comparisons with the loop-carried bracket
-    sel = [x for x in T.walk(newv) if x[0] == "phi" and (x[2] == step or x[3] == step)]
+    # on every path on which the new iterate IS the Newton step, the path condition bounds the step on both sides by the
+    # loop-carried bracket (conditions may be spread over several tests and flags: they are expanded to DNF)
+    from ..rules import formula_dnf
+    from .c10 import phi_leaves
     ok = False
     detail = "the Newton iterate is accepted without any range test"
-    for p in sel:
-        c = p[1]
-        cmps = [d for d in disjuncts(c)] if p[3] == step else [d for d in conjuncts(T.lnot(c))]
-        others = []
-        for d in cmps:
-            if d[0] == "cmp":
-                others.extend([t for t in (d[2], d[3]) if t != step])
-        bracket = [t for t in others if t[0] == "lv"]
-        table = [t for t in others if t in (XMIN, XMAX)]
-        if len(bracket) >= 2 and not table:
-            ok = True
-        elif table:
-            detail = ("the Newton iterate x - y/y' is tested against the table limits (%s), not the current bracket [xl, xh]: "
-                      "a step that leaves the bracket but stays inside the table is accepted and the returned root can lie outside the interval asked for"
-                      % ", ".join(sorted({T.show(t) for t in table})))
+    paths = [conds for conds, leaf in phi_leaves(newv) if leaf == step]
+    verdicts = []
+    for conds in paths:
+        f = T.land(*conds) if conds else ("bool", True)
+        dnf = formula_dnf(f)
+        if dnf is None:
+            verdicts.append("?")
+            continue
+        for conj in dnf:
+            others = []
+            for atom, pol in conj:
+                if atom[0] == "cmp" and step in (atom[2], atom[3]):
+                    others.append(atom[3] if atom[2] == step else atom[2])
+            bracket = [t for t in others if t[0] == "lv"]
+            table = [t for t in others if t in (XMIN, XMAX)]
+            if len(bracket) >= 2 and not table:
+                verdicts.append("ok")
+            elif table:
+                verdicts.append("table")
+                detail = ("the Newton iterate x - y/y' is tested against the table limits (%s), not the current bracket [xl, xh]: "
+                          "a step that leaves the bracket but stays inside the table is accepted and the returned root can lie outside the interval asked for"
+                          % ", ".join(sorted({T.show(t) for t in table})))
+            else:
+                verdicts.append("none")
+    ok = bool(verdicts) and all(v == "ok" for v in verdicts)
     if ok:
         rep.ok("R-CLAMP", site + ":bracket", "accepted Newton iterate is tested against the loop-carried bracket; midpoint and regula-falsi candidates lie inside a sign-changing bracket")
     else:
